@@ -412,7 +412,7 @@ class Machine:
         if k == "unit":
             return UNIT
         if k == "char":
-            return c[1]
+            return ord(c[1]) if len(c[1]) == 1 else c[1]      # chars are carried as their scalar value
         if k == "zst":
             _, name = base_type(c[1]) if "closure" not in c[1] else (None, c[1])
             return Struct(name, [])
